@@ -22,50 +22,59 @@ structure WFInput (vs : List (Id × Rat × Rat)) (es : List (Id × Id × Id)) (c
       ∃ e ∈ es, (e.2.1 = ab.1 ∧ e.2.2 = ab.2) ∨ (e.2.1 = ab.2 ∧ e.2.2 = ab.1)
 
 theorem empty_consistent : Mesh.empty.Consistent = true := by
-  sorry
+  decide
+
+theorem WFInput.consP {vs : List (Id × Rat × Rat)} {es : List (Id × Id × Id)} {cs : List (Id × List Id)}
+    (h : WFInput vs es cs) : ConsP (ofLists vs es cs) :=
+  ofLists_consP vs es cs h.vkeys h.ekeys h.ckeys (fun e he => (h.eends e he).2) h.cverts h.cjoined
 
 /-- (3) keys -/
 theorem ofLists_keysOk (vs : List (Id × Rat × Rat)) (es : List (Id × Id × Id)) (cs : List (Id × List Id))
-    (h : WFInput vs es cs) : (ofLists vs es cs).keysOk = true := by
-  sorry
+    (h : WFInput vs es cs) : (ofLists vs es cs).keysOk = true :=
+  (keysOk_iff _).mpr h.consP.1
 
 /-- (1) a vertex lists a mesh edge exactly when that edge ends at it -/
 theorem ofLists_ownEdgesOk (vs : List (Id × Rat × Rat)) (es : List (Id × Id × Id)) (cs : List (Id × List Id))
-    (h : WFInput vs es cs) : (ofLists vs es cs).ownEdgesOk = true := by
-  sorry
+    (h : WFInput vs es cs) : (ofLists vs es cs).ownEdgesOk = true :=
+  (ownEdgesOk_iff _).mpr h.consP.2.1
 
 /-- (2) a vertex lists a cell exactly when it occurs in that cell's cycle -/
 theorem ofLists_ownCellsOk (vs : List (Id × Rat × Rat)) (es : List (Id × Id × Id)) (cs : List (Id × List Id))
-    (h : WFInput vs es cs) : (ofLists vs es cs).ownCellsOk = true := by
-  sorry
+    (h : WFInput vs es cs) : (ofLists vs es cs).ownCellsOk = true :=
+  (ownCellsOk_iff _).mpr h.consP.2.2.1
 
 theorem ofLists_refsOk (vs : List (Id × Rat × Rat)) (es : List (Id × Id × Id)) (cs : List (Id × List Id))
-    (h : WFInput vs es cs) : (ofLists vs es cs).refsOk = true := by
-  sorry
+    (h : WFInput vs es cs) : (ofLists vs es cs).refsOk = true :=
+  (refsOk_iff _).mpr h.consP.2.2.2.1
 
 theorem ofLists_cellsNodup (vs : List (Id × Rat × Rat)) (es : List (Id × Id × Id)) (cs : List (Id × List Id))
-    (h : WFInput vs es cs) : (ofLists vs es cs).cellsNodup = true := by
-  sorry
+    (h : WFInput vs es cs) : (ofLists vs es cs).cellsNodup = true :=
+  (cellsNodup_iff _).mpr h.consP.2.2.2.2.1
 
 theorem ofLists_cyclesJoined (vs : List (Id × Rat × Rat)) (es : List (Id × Id × Id)) (cs : List (Id × List Id))
-    (h : WFInput vs es cs) : (ofLists vs es cs).cyclesJoined = true := by
-  sorry
+    (h : WFInput vs es cs) : (ofLists vs es cs).cyclesJoined = true :=
+  (cyclesJoined_iff _).mpr h.consP.2.2.2.2.2
 
 /-- the parser pattern yields a consistent mesh for every well-formed input -/
 theorem ofLists_consistent (vs : List (Id × Rat × Rat)) (es : List (Id × Id × Id)) (cs : List (Id × List Id))
-    (h : WFInput vs es cs) : (ofLists vs es cs).Consistent = true := by
-  sorry
+    (h : WFInput vs es cs) : (ofLists vs es cs).Consistent = true :=
+  (consistent_iff _).mpr h.consP
 
 /-- deleting a mesh edge (with `__del__` unregistering it) keeps clause (1), keys and references -/
 theorem delEdge_preserves (m : Mesh) (k : Id) (h1 : m.keysOk = true) (h2 : m.ownEdgesOk = true) :
     (m.delEdge k).keysOk = true ∧ (m.delEdge k).ownEdgesOk = true := by
-  sorry
+  rw [keysOk_iff] at h1 ⊢
+  rw [ownEdgesOk_iff] at h2 ⊢
+  exact ⟨delEdge_keysP m k h1, delEdge_ownEdgesP m k h1.1 h1.2.1 h2⟩
 
 /-- deleting a cell (with `__del__` unregistering it) keeps clause (2) and keys -/
 theorem delCell_preserves (m : Mesh) (k : Id) (h1 : m.keysOk = true) (h2 : m.ownCellsOk = true)
     (h3 : m.cellsNodup = true) :
     (m.delCell k).keysOk = true ∧ (m.delCell k).ownCellsOk = true := by
-  sorry
+  rw [keysOk_iff] at h1 ⊢
+  rw [ownCellsOk_iff] at h2 ⊢
+  rw [cellsNodup_iff] at h3
+  exact ⟨delCell_keysP m k h1 h3, delCell_ownCellsP m k h1.1 h1.2.2.1 h2 h3⟩
 
 /-- Surface Evolver's orphan removal keeps the mesh consistent -/
 theorem orphanRemoval_consistent (m : Mesh) (h : m.Consistent = true) : m.orphanRemoval.Consistent = true := by
@@ -75,7 +84,8 @@ theorem orphanRemoval_consistent (m : Mesh) (h : m.Consistent = true) : m.orphan
     exactly their end vertices, provided the input was consistent -/
 theorem generateMesh_ownEdgesOk (m : Mesh) (ne : Nat) (hne : 0 < ne) (h : m.Consistent = true) :
     (m.generateMesh ne false).mesh.ownEdgesOk = true := by
-  sorry
+  rw [consistent_iff] at h
+  exact (ownEdgesOk_iff _).mpr (generateMesh_ownEdgesP m ne h.1 h.2.1)
 
 /-! non-vacuity: two triangles sharing an edge -/
 example : WFInput [(0, 0, 0), (1, 1, 0), (2, 0, 1), (3, 1, 1)]
